@@ -47,7 +47,7 @@ def choose(rnd, rels, p=0.35, mx=0, kinds=None):
             amb["ancestor_lock"] = rnd.choice(stale_lock_texts(rnd, mx)[:6])
         elif k == "siblings":
             # files next to the configuration whose names resemble the lock's or the tool's own scratch names
-            for name in rnd.sample(["Breadlog.tmp", "Breadlog.lock.bak", "Breadlog.yaml.tmp", "Breadlog.lock~", "Breadlog.lock.orig", ".Breadlog.lock.swp"], 3):
+            for name in ["Breadlog.tmp"] + rnd.sample(["Breadlog.lock.bak", "Breadlog.yaml.tmp", "Breadlog.lock~", "Breadlog.lock.orig", ".Breadlog.lock.swp", "Breadlog.new"], 2):
                 amb["siblings"][name] = b"# a draft kept next to the configuration\nnext_reference_id: 3\n"
             for r in rnd.sample(rels, min(len(rels), 2)):
                 stem = r[:-3] if r.endswith(".rs") else r
